@@ -23,12 +23,12 @@ const memRule = "one case = one plan in one of three configurations: (arena) 1-2
 
 const symRule = "one case = one fresh load of the symbol tables (ResetForVerif) followed by lookups of present functions (every uniquely named function of the binary is covered by consecutive 100-name blocks across seeds), zoo variables, absent and near-miss names, from 1-4 tasks racing into first use under the scheduler; in 70% of the cases exactly one read of the executable fails through the reader seam (EIO, truncation, zero-filled data) at an enumerated call index 0..47; non-trivial = a fault fired or a context switch occurred; distinct = hash of (names, context-switch sequence, fired fault)"
 
-const originRule = "one case = one history over 1-3 Go zoo targets mocked with an origin-calling callback (apply, re-apply, cancel, GC events) whose calls are issued on fresh goroutines below a filler recursion of seeded depth 1..500 frames x 4 fine offsets (every 40th seed sweeps all depths on one target), interleaved with operations on the 11-shape assembly zoo (patch.PtrTrampoline with a placeholder linked before or after the shape, relocated code executed for 5 inputs, refusals must change nothing); non-trivial = every case executes relocated code or a refusal; distinct = hash of (operations, fired events)"
+const originRule = "one case = one history over 1-3 Go zoo targets mocked with an origin-calling callback (apply, re-apply, cancel, GC events) whose calls are issued on fresh goroutines below a filler recursion of seeded depth 1..500 frames x 4 fine offsets (every 40th seed sweeps all depths on one target), interleaved with operations on the 19-shape assembly zoo (patch.PtrTrampoline with a placeholder linked before or after the shape, relocated code executed for 6 inputs, refusals must change nothing); non-trivial = every case executes relocated code or a refusal; distinct = hash of (operations, fired events)"
 
 const logRule = "one case = one plan of the behavioural worlds (hist incl. methods with OpenDebug/OpenTrace/Close* spliced in as operations, stub incl. variadics and sequences, iface; same generators and seeds) executed three times in one process - logging off, OpenDebug(), OpenTrace() - with line-by-line transcript comparison; the first seeds are repeated in separate processes with GOOM_DEBUG=1, with an uncreatable log directory and with a log file on /dev/full, and transcript hashes are compared across processes; non-trivial = every case compares at least two logging configurations; distinct = hash of (operations, fired events)"
 
 func init() {
-	props["C19"] = propCfg{World: "log", Level: "exploration", Quick: 1500, Thorough: 50000, RaceQ: 240, RaceT: 6000, Chunk: 50, EnvVar: map[string]int{"env:debug": 300, "env:nodir": 150, "env:full": 150}, Rule: logRule, Assume: commonAssume}
+	props["C19"] = propCfg{World: "log", Level: "exploration", Quick: 1500, Thorough: 50000, RaceQ: 480, RaceT: 8000, Chunk: 50, EnvVar: map[string]int{"env:debug": 300, "env:nodir": 150, "env:full": 150}, Rule: logRule, Assume: commonAssume}
 	props["C03"] = propCfg{World: "origin", Level: "exploration", Quick: 1600, Thorough: 100000, Chunk: 40, Rule: originRule, Assume: commonAssume}
 	props["C10"] = propCfg{World: "sym", Level: "fault_enumeration", Quick: 1500, Thorough: 60000, RaceQ: 200, RaceT: 6000, Chunk: 25, Extra: map[string]int{"pie": 150, "strip": 150, "extlink": 200}, Rule: symRule, Assume: commonAssume}
 	props["C14"] = propCfg{World: "mem", Level: "exploration", Quick: 2500, Thorough: 200000, Chunk: 50, Rule: memRule, Assume: commonAssume}
@@ -40,7 +40,7 @@ func init() {
 	props["C08"] = propCfg{World: "var", Level: "exploration", Quick: 6000, Thorough: 200000, Chunk: 200, Rule: varRule, Assume: commonAssume}
 	props["C01"] = propCfg{World: "hist", Level: "exploration", Quick: 2400, Thorough: 100000, Chunk: 50, Rule: histRule, Assume: commonAssume}
 	props["C02"] = propCfg{World: "hist", Level: "exploration", Quick: 2400, Thorough: 100000, Chunk: 50, Rule: histRule, Assume: commonAssume}
-	props["C06"] = propCfg{World: "hist", Level: "exploration", Quick: 2400, Thorough: 100000, Chunk: 50, Rule: histRule + "; for C06 the targets are the 17 methods of the method zoo (exported / unexported, pointer / value receivers, name families Get/GetX/Get1, an unexported struct type, generic instantiations of equal and different GC shape) and every sibling method of the receiver type is called after each step", Assume: commonAssume}
+	props["C06"] = propCfg{World: "hist", Level: "exploration", Quick: 2400, Thorough: 100000, Chunk: 50, Rule: histRule + "; for C06 the targets are the methods of the method zoo (exported / unexported, pointer / value receivers, name families Get/GetX/Get1, an unexported struct type, generic instantiations of equal and different GC shape) and every sibling method of the receiver type is called after each step", Assume: commonAssume}
 	props["C12"] = propCfg{World: "hist", Level: "exploration", Quick: 2400, Thorough: 120000, Chunk: 50, Rule: histRule, Assume: commonAssume}
 	props["C13"] = propCfg{World: "hist", Level: "exploration", Quick: 2400, Thorough: 120000, Chunk: 50, Rule: histRule, Assume: commonAssume}
 }
